@@ -79,7 +79,7 @@ def values():
     syms = [a, 2 * a, a + b, a - 2 * b, a ** 2, a / b, 1 / a, a * b - 1, alpha + a, 0.1 * a, a / 3, 1e-7 * e, a_1 - a, x1 * 2.5 + alpha, -a, (a + b) / (a - 2), 1.5e-10 * alpha * e]
     for v in syms:
         V.append(("sympy", str(v), lambda v=v: v))
-    for v in (-(a ** 2), -(a ** 3) * b, -((a + 1) ** 2), 2 ** (-a), 1 - a ** 2):
+    for v in (-(a ** 2), -(a ** 3) * b, -((a + 1) ** 2), 2 ** (-a), 1 - a ** 2, -(a ** 2) / 2, b - a ** 2 / 4, -(2 ** a) / 3, -a * b ** 2 / 2, -3 * a ** 2 / 2):
         V.append(("sympy-signed-power", str(v), lambda v=v: v))
     for v in (q1a, 2 * q1a - q2_0, pix + a, sqrt2 * 2, p0 - a, q2_0 / pix):
         V.append(("sympy-lookalike-names", str(v), lambda v=v: v))
